@@ -4,9 +4,12 @@ The writer and the reader are interpreted as they are (helpers inlined, any idio
 of every attribute of the object read back with the value the property states: the stored array, in the stored order or reversed on the spectral axis -
 all spectral arrays together - according to the order requested, in the requested units. Units of the stored object are symbolic, so a unit string taken
 from the wrong column, a conversion applied twice or not at all, or a column read into the wrong attribute leaves a non-zero remainder."""
+import copy
+import itertools
+
 from . import alg, fitsem
 from .alg import Poly, P, B, sym, lt, mk_fn
-from .interp import Interp, Arr, Obj, Unk, ClassRef, Marker, symarr, scalar, num, unit_atom
+from .interp import Interp, Arr, Obj, Unk, ClassRef, Marker, symarr, scalar, num, unit_atom, merge_val
 from .fitmodel import compare, loc
 
 A, N, M = 'a', 'n', 'm'
@@ -46,6 +49,20 @@ def _unwrap(v):
     return v.as_value() if isinstance(v, fitsem.QCol) and v.unit is not None else (v.data_ if isinstance(v, fitsem.QCol) else v)
 
 
+class _Worlds(Obj):
+    """the object read back, once per case of the data-dependent conditions the reader branches on: the state of the object may differ in kind between the
+    cases (an attribute that is None in one and an array in the other), what its properties return is merged case by case"""
+    def __init__(self, cls, conds, worlds):
+        Obj.__init__(self, cls, {})
+        self.conds, self.worlds = conds, worlds
+
+
+class _ManyInterps:
+    def __init__(self, interps):
+        self.findings = [f for i in interps for f in i.findings]
+        self.uncaught = next((i.uncaught for i in interps if getattr(i, 'uncaught', None)), None)
+
+
 def _run(repo, cls_key, write_q, read_q, obj, read_kwargs):
     mod, cname = cls_key
     ci = repo.cls(mod, cname)
@@ -54,13 +71,34 @@ def _run(repo, cls_key, write_q, read_q, obj, read_kwargs):
     r = Iw.call(repo.func(mod, write_q), ['FILE'], selfv=obj)
     if isinstance(r, Unk) or len(hw.written) != 1:
         return Iw, None, r if isinstance(r, Unk) else Unk('the writer wrote %d files' % len(hw.written))
-    hr = fitsem.FitsHooks(file=hw.written[0])
-    Ir = Interp(repo, hr)
-    out = Ir.call(repo.func(mod, read_q), [ClassRef(ci), 'FILE'], dict(read_kwargs))
+
+    def read(assume=()):
+        hr = fitsem.FitsHooks(file=copy.deepcopy(hw.written[0]))
+        Ir = Interp(repo, hr)
+        Ir.assume = list(assume)
+        return Ir, Ir.call(repo.func(mod, read_q), [ClassRef(ci), 'FILE'], dict(read_kwargs))
+    Ir, out = read()
+    if isinstance(out, Obj) and any(isinstance(v, Unk) for v in out.attrs.values()) and 1 <= len(Ir.forked) <= 2:
+        # the state of the object differs in kind between the arms of a data-dependent if: one run per case
+        conds = list(Ir.forked)
+        worlds = []
+        for bits in itertools.product((True, False), repeat=len(conds)):
+            Ik, ok_ = read(list(zip(conds, bits)))
+            if not isinstance(ok_, Obj):
+                return Iw, Ir, out
+            worlds.append((bits, Ik, ok_))
+        return Iw, _ManyInterps([w[1] for w in worlds]), _Worlds(out.cls, conds, worlds)
     return Iw, Ir, out
 
 
 def _attr(I, o, name, fi):
+    if isinstance(o, _Worlds):
+        vals = {bits: _unwrap(Ik.getattr(ok_, name, None, fi.module)) for bits, Ik, ok_ in o.worlds}
+        def pick(prefix):
+            if len(prefix) == len(o.conds):
+                return vals[tuple(prefix)]
+            return merge_val(pick(prefix + [True]), pick(prefix + [False]), o.conds[len(prefix)], None)
+        return pick([])
     v = I.getattr(o, name, None, fi.module)
     return _unwrap(v)
 
